@@ -10,7 +10,9 @@ Contracts:
         ensures res += f(X1), dres += d f / d X1 (accumulating; chunk-independent); shape mismatch raises ValueError
   baselines: _lda_x/_pbe_x/_chachiyo_x/_vi_x_damp helpers, _sl_x_helper, get_sigma/get_dsigma, get_gga_c,
              get_libxc_baseline_ss/_os/get_libxc_baseline recombinations:  derivative outputs = derivative of the energy output
-  C kernels (evaluate_se_kernel*): see contracts/c04c.py (engine C)
+  C kernels model_utils.c:evaluate_se_kernel, _antisym, _spin, _spin_v2 (engine C, contracts/ckernels.py): for all n, nctrl, nfeat,
+        out[i] += sum_t alpha_t k(x_i, c_t) with the documented squared-exponential forms, and every element of outd receives the
+        derivative of that sum with respect to the input element at the same position (plus bounds and iteration independence)
 """
 import os
 import sys
@@ -479,6 +481,9 @@ def units():
             u.append(("wrapper2-rhocut/%s/nspin%d" % (mode, nspin), unit_wrapper2(mode, nspin, "gga", True, rhocut=True)))
     u.append(("evaluators", unit_evaluators))
     u.append(("baselines", unit_baselines))
+    from contracts import ckernels
+    for fn in ("evaluate_se_kernel", "evaluate_se_kernel_antisym", "evaluate_se_kernel_spin", "evaluate_se_kernel_spin_v2"):
+        u.append(("c-kernel/" + fn, ckernels.unit_se_kernel(fn)))
     return u
 
 
@@ -493,6 +498,7 @@ TRUSTED = [
     "A1 reals; A3/A4 numpy/Python model; A7 boundaries of piecewise guards excluded",
     "callee contracts: feature list (proved in C12), FuncEvaluator.__call__ adds (E, dE) (proved here for the Python evaluators, C kernels in the C part), libxc returns (B/rho, dB) (external)",
     "numba spline evaluator and torch are external",
+    "engine C (cvc): int is mathematical in index arithmetic, double is real, parameters do not alias, loop summaries by generic iteration with inferred induction/reduction forms re-checked by re-execution; libm exp/sqrt are the mathematical functions",
 ]
 
 if __name__ == "__main__":
